@@ -55,12 +55,33 @@ def run(ctx):
             continue
         members.append({"id": len(members), "key": m["key"], "structure": m["structure"], "seed": m["sbc_seed"],
                         "classes": m["slabs"], "dim": 2, "meta": m["meta"]})
+    # the same stacks as ASE builds them (lower slab ON the cell face z = 0, axes aligned, atoms in building order), rattled,
+    # with several further SBC seeds: rattled layers straddling the cell boundary and periodic-image bookkeeping of the finder
+    # only show in this orientation.  Quick: thin (3-layer lower slab) members, 4 seeds; thorough: every member, 3 seeds.
+    for m in list(built):
+        lay = m["meta"]["layers"]
+        if quick and not (lay[0] == 3):
+            continue
+        for k in range(4 if quick else 3):
+            t = F.c03_member_asbuilt(m["key"], k)
+            if t.get("admitted") and t["key"] not in have:
+                members.append({"id": len(members), "key": t["key"], "structure": t["structure"], "seed": t["sbc_seed"],
+                                "classes": t["slabs"], "dim": 2, "meta": t["meta"]})
+    # ... and stacked periodically without vacuum (both interfaces bonded), several SBC seeds each
+    for m in list(built):
+        for k in range(5 if quick else 3):
+            t = F.c03_member_superlattice(m["key"], k)
+            if t.get("admitted") and t["key"] not in have:
+                members.append({"id": len(members), "key": t["key"], "structure": t["structure"], "seed": t["sbc_seed"],
+                                "classes": t["slabs"], "dim": 2, "meta": t["meta"]})
     fam = ("C03 family: ordered pairs (A, B) of distinct fcc metals on (100)/(111) and bcc metals on (100)/(110) of "
            "ase.data.reference_states with |a_B - a_A| / a_A < 5 %; B strained in-plane to A's cell (own interlayer spacing), "
            "3-5 layers each, 4x4 / 5x5 lateral repeats of the primitive surface cell, interface gap = mean interlayer spacing "
            "with B continuing the stacking registry, vacuum >= 8 A, pbc TTT/TTF, noise 0/0.03 A, random SO(3) rotation, "
            "translation, permutation, SBC seed -- all derived from the member key; admitted only if each slab and the stack are "
-           "bonded (connected, periodic rank 2) and non-overlapping with margin 0.15 A (this rejects most pairs of W/Ta/Mo/Nb)")
+           "bonded (connected, periodic rank 2) and non-overlapping with margin 0.15 A (this rejects most pairs of W/Ta/Mo/Nb); "
+           "plus, for the admitted members, the same stack as ASE builds it (lowest layer on the cell face, axes aligned) and the two slabs "
+           "stacked periodically without vacuum, rattled, with several further SBC seeds")
     ctx.coverage["family_enumeration"] = {"keys_drawn": len(keys), "rejected_by_precondition": rejected, "corpus": len(have),
                                           "ordered_pairs_with_mismatch_below_5pct": len(F.c03_pairs())}
     res, verdicts, failing, corr_fail, corr_err, known = K.run_family(
